@@ -203,6 +203,10 @@ def run(prog: Program, res: Result) -> None:  # noqa: PLR0912, PLR0915
     from checks.shared import check_cache_hit_environment
 
     check_cache_hit_environment(prog, res, "C18.R7")
+    res.rule("C18.R9", "markers belong to the markup they were written on: the lexer's scratch list of markers (`self.wc`), whose elements are copied into each token, is empty again on every path from that emission to the end of the state function - a marker left behind becomes the left marker of the next tag or output and trims text the author never marked (shared with C17.R7b)")
+    from checks.C17 import check_scratch_lists
+
+    check_scratch_lists(prog, res, "C18.R9")
     res.rule("C18.R6", "no pattern of the lexer uses the `$` anchor (it also matches before a final newline): text is split into content tokens only at markup openers and at the absolute end of input (\\Z), so the whitespace a marker acts on never depends on a lexing artefact")
     import re._parser as _sp
 
